@@ -12,6 +12,7 @@ EXPLANATION = (
     "(R6) the open path truncates the torn tail before the first append; (R7) records are promoted to the committed "
     "result only under a TxCommit (or Checkpoint) arm; (R8) Sync mode fsyncs on commit records, close syncs before "
     "marking closed, and rotation fsyncs the file it retires. Each fsync of the active log is preceded by a flush of its buffered writer, and the reader rejects no record length the writers accept (R4). "
+    "The checkpoint metadata file only appears by rename of a completely written and fsynced temp file (R3 atomic-replace). "
     "Byte-level crash enumeration is not decided.")
 ASSUMPTIONS = ["crash model of the property: each file may fall back to its last-fsynced length",
                "std::fs::File::{sync_all,set_len}, fs::rename and tokio equivalents are the durability primitives"]
